@@ -6,7 +6,7 @@
      front end : CreateUpdate InsertGroup InsertJob Commit CancelGroup MarkDeleted
                    (batch/batch/front_end/front_end.py, batch/batch/batch.py, commit_batch_update, cancel_job_group)
      driver    : SchedSelect ScheduleProc JpimSelect CreatingProc Started Complete Heartbeat AddResources
-                 CancelReady CancelCreating CancelRunning Orphan Activate Deactivate MarkInstDeleted
+                 CancelReadySelect/Call CancelCreatingSelect/Call CancelRunningSelect OrphanSelect UnscheduleCall Activate Deactivate
                  CleanStaging CleanCancellable NextDay
                    (driver/instance_collection/pool.py, job_private.py, canceller.py, main.py, job.py and the
                     procedures schedule_job, mark_job_creating, mark_job_started, mark_job_complete,
@@ -31,11 +31,11 @@ CONSTANTS Jobs, Groups, Updates,        \* Jobs = 1..N, Groups = 0..G (0 = root)
 
 VARIABLES us, gex, gst, gnj, canc, bst, bnj, bdel,
           js, jc, npp, jatt, tally, stg, cr, ur,
-          att, ares, inst, disp, jdisp,
+          att, ares, inst, disp, jdisp, pcall,
           ujob, ugrp, ubp, udate, today
 
 vars == <<us, gex, gst, gnj, canc, bst, bnj, bdel, js, jc, npp, jatt, tally, stg, cr, ur,
-          att, ares, inst, disp, jdisp, ujob, ugrp, ubp, udate, today>>
+          att, ares, inst, disp, jdisp, pcall, ujob, ugrp, ubp, udate, today>>
 
 NULL  == "NULL"
 NULLT == -1
@@ -143,7 +143,7 @@ Init ==
   /\ att = [j \in Jobs |-> [a \in AttIds |-> NoAtt]]
   /\ ares = [j \in Jobs |-> [a \in AttIds |-> FALSE]]
   /\ inst = [i \in Insts |-> [st |-> "pending", free |-> InstCores]]
-  /\ disp = {} /\ jdisp = {}
+  /\ disp = {} /\ jdisp = {} /\ pcall = {}
   /\ ujob = [j \in Jobs |-> 0] /\ ugrp = [g \in Groups |-> 0] /\ ubp = 0 /\ udate = [d \in Days |-> 0]
   /\ today = 0
 
@@ -152,7 +152,7 @@ CreateUpdate(u) ==            \* _create_batch_update: token lookup (idempotent)
   /\ us[u] = "none" /\ (IF u = 1 THEN TRUE ELSE us[u - 1] # "none")
   /\ 0 \notin canc /\ ~bdel
   /\ us' = [us EXCEPT ![u] = "open"]
-  /\ UNCHANGED <<gex, gst, gnj, canc, bst, bnj, bdel, js, jc, npp, jatt, tally, stg, cr, ur, att, ares, inst, disp, jdisp,
+  /\ UNCHANGED <<gex, gst, gnj, canc, bst, bnj, bdel, js, jc, npp, jatt, tally, stg, cr, ur, att, ares, inst, disp, jdisp, pcall,
                  ujob, ugrp, ubp, udate, today>>
 
 InsertGroup(g) ==             \* _create_job_groups, one group per bunch
@@ -161,7 +161,7 @@ InsertGroup(g) ==             \* _create_job_groups, one group per bunch
   /\ ~GrpCanc(GParent[g])                         \* "job group parent has already been cancelled" otherwise
   /\ Cardinality(Anc(GParent[g])) <= MaxGroupDepth \* "job group exceeded the maximum level of nesting" otherwise
   /\ gex' = [gex EXCEPT ![g] = TRUE]
-  /\ UNCHANGED <<us, gst, gnj, canc, bst, bnj, bdel, js, jc, npp, jatt, tally, stg, cr, ur, att, ares, inst, disp, jdisp,
+  /\ UNCHANGED <<us, gst, gnj, canc, bst, bnj, bdel, js, jc, npp, jatt, tally, stg, cr, ur, att, ares, inst, disp, jdisp, pcall,
                  ujob, ugrp, ubp, udate, today>>
 
 UStart(u) == 1 + Cardinality({ k \in Jobs : JUpd[k] < u })      \* batch_updates.start_job_id
@@ -182,7 +182,7 @@ InsertJob(j) ==               \* _create_jobs, one job per bunch; trigger jobs_b
         /\ cr' = [cr EXCEPT ![u] = [g \in Groups |->
                      IF g \in Anc(JGrp[j]) /\ ready /\ ~JAlways[j]
                      THEN [cr[u][g] EXCEPT !.r = @ + 1, !.rcores = @ + JCores[j]] ELSE cr[u][g]]]
-  /\ UNCHANGED <<us, gex, gst, gnj, canc, bst, bnj, bdel, jc, jatt, tally, ur, att, ares, inst, disp, jdisp,
+  /\ UNCHANGED <<us, gex, gst, gnj, canc, bst, bnj, bdel, jc, jatt, tally, ur, att, ares, inst, disp, jdisp, pcall,
                  ujob, ugrp, ubp, udate, today>>
 
 \* CALL commit_batch_update.  The handler's "root not cancelled" pre-check is a separate, earlier transaction (and the
@@ -212,7 +212,7 @@ Commit(u) ==
                   /\ jc' = [j \in Jobs |-> IF j \in S THEN new[j].c ELSE jc[j]]
                   /\ npp' = [j \in Jobs |-> IF j \in S THEN pend(j) ELSE npp[j]]
                   /\ ur' = res[1] /\ cr' = res[2]
-  /\ UNCHANGED <<gex, canc, bdel, jatt, tally, stg, att, ares, inst, disp, jdisp, ujob, ugrp, ubp, udate, today>>
+  /\ UNCHANGED <<gex, canc, bdel, jatt, tally, stg, att, ares, inst, disp, jdisp, pcall, ujob, ugrp, ubp, udate, today>>
 
 CancelEffect(g) ==            \* CALL cancel_job_group (119)
   IF GrpCanc(g) THEN UNCHANGED <<canc, cr, ur>>
@@ -231,7 +231,7 @@ CancelEffect(g) ==            \* CALL cancel_job_group (119)
 CancelGroup(g) ==             \* batch.cancel_job_group_in_db: existence / committed check + the procedure, one transaction
   /\ gex[g] /\ ~bdel /\ (IF g = 0 THEN TRUE ELSE us[GUpd[g]] = "committed")
   /\ CancelEffect(g)
-  /\ UNCHANGED <<us, gex, gst, gnj, bst, bnj, bdel, js, jc, npp, jatt, tally, stg, att, ares, inst, disp, jdisp,
+  /\ UNCHANGED <<us, gex, gst, gnj, bst, bnj, bdel, js, jc, npp, jatt, tally, stg, att, ares, inst, disp, jdisp, pcall,
                  ujob, ugrp, ubp, udate, today>>
 
 \* _delete_batch = select; CALL cancel_job_group(root); UPDATE deleted = 1 (three transactions).  The middle one is a
@@ -239,7 +239,7 @@ CancelGroup(g) ==             \* batch.cancel_job_group_in_db: existence / commi
 MarkDeleted ==
   /\ "delete" \in Features /\ ~bdel /\ 0 \in canc
   /\ bdel' = TRUE
-  /\ UNCHANGED <<us, gex, gst, gnj, canc, bst, bnj, js, jc, npp, jatt, tally, stg, cr, ur, att, ares, inst, disp, jdisp,
+  /\ UNCHANGED <<us, gex, gst, gnj, canc, bst, bnj, js, jc, npp, jatt, tally, stg, cr, ur, att, ares, inst, disp, jdisp, pcall,
                  ujob, ugrp, ubp, udate, today>>
 
 \* ---- driver: procedures ------------------------------------------------------------------------------------------------
@@ -261,7 +261,7 @@ ScheduleProc(j, a, i) ==      \* CALL schedule_job (119)
      /\ IF js[j] \in {"Ready", "Creating"} /\ ~JobCanc(j) /\ inst[i].st = "active"
         THEN JobRow(j, "Running", jc[j], a)
         ELSE UNCHANGED <<js, jc, jatt, ur, cr>>
-  /\ UNCHANGED <<us, gex, gst, gnj, canc, bst, bnj, bdel, npp, tally, stg, ares, disp, jdisp, ujob, ugrp, ubp, udate, today>>
+  /\ UNCHANGED <<us, gex, gst, gnj, canc, bst, bnj, bdel, npp, tally, stg, ares, disp, jdisp, pcall, ujob, ugrp, ubp, udate, today>>
 
 \* mark_job_creating / mark_job_started (119): add_attempt, attempts.start = rollup = t, then the guarded state change
 StartLike(j, a, i, t, okState, instState, newState) ==
@@ -273,7 +273,7 @@ StartLike(j, a, i, t, okState, instState, newState) ==
         /\ IF js[j] = okState /\ ~JobCanc(j) /\ inst[i].st = instState
            THEN JobRow(j, newState, jc[j], a)
            ELSE UNCHANGED <<js, jc, jatt, ur, cr>>
-  /\ UNCHANGED <<us, gex, gst, gnj, canc, bst, bnj, bdel, npp, tally, stg, ares, disp, jdisp, today>>
+  /\ UNCHANGED <<us, gex, gst, gnj, canc, bst, bnj, bdel, npp, tally, stg, ares, disp, jdisp, pcall, today>>
 
 \* Worker reports are accepted from activated instances only (@active_instances_only); a report that passed that check may
 \* still reach the database after the instance was deactivated.
@@ -325,9 +325,9 @@ MJC(j, a, i, st, t0, t1, reason) ==
   /\ UNCHANGED <<us, gex, gnj, canc, bnj, bdel, stg, ares, disp, jdisp, today>>
 
 Complete(j, a, i, st, t0, t1) ==      \* worker report job_complete (possibly late / duplicated / stale attempt)
-  /\ <<j, a, i>> \in disp /\ js[j] # "none" /\ st \in {"Success", "Failed"} /\ t0 \in Times /\ t1 \in Times /\ t0 <= t1
+  /\ <<j, a, i>> \in disp /\ js[j] # "none" /\ st \in {"Success", "Failed", "Error"} /\ t0 \in Times /\ t1 \in Times /\ t0 <= t1
   /\ inst[i].st \in {"active", "inactive"}
-  /\ MJC(j, a, i, st, t0, t1, "completed")
+  /\ MJC(j, a, i, st, t0, t1, "completed") /\ UNCHANGED pcall
 
 \* unschedule_job (067)
 Unschedule(j, a, i, t) ==
@@ -353,7 +353,7 @@ SchedSelect(j, a, i) ==
   /\ (JAlways[j] \/ (~GrpCanc(JGrp[j]) /\ ~jc[j]))
   /\ inst[i].st = "active" /\ ~att[j][a].ex /\ \A ii \in Insts : <<j, a, ii>> \notin disp
   /\ disp' = disp \cup {<<j, a, i>>}
-  /\ UNCHANGED <<us, gex, gst, gnj, canc, bst, bnj, bdel, js, jc, npp, jatt, tally, stg, cr, ur, att, ares, inst, jdisp,
+  /\ UNCHANGED <<us, gex, gst, gnj, canc, bst, bnj, bdel, js, jc, npp, jatt, tally, stg, cr, ur, att, ares, inst, jdisp, pcall,
                  ujob, ugrp, ubp, udate, today>>
 
 \* JobPrivateInstanceManager.create_instances_loop_body: a Ready job gets a fresh pending instance and mark_job_creating
@@ -363,44 +363,62 @@ JpimSelect(j, a, i) ==
   /\ (JAlways[j] \/ (~GrpCanc(JGrp[j]) /\ ~jc[j]))
   /\ inst[i].st = "pending" /\ inst[i].free = InstCores /\ ~att[j][a].ex
   /\ \A jj \in Jobs, aa \in AttIds : <<jj, aa, i>> \notin disp /\ (\A ii \in Insts : <<j, a, ii>> \notin disp)
-  /\ disp' = disp \cup {<<j, a, i>>} /\ jdisp' = jdisp \cup {<<j, a, i>>}
+  /\ disp' = disp \cup {<<j, a, i>>} /\ jdisp' = jdisp \cup {<<j, a, i>>} /\ UNCHANGED pcall
   /\ UNCHANGED <<us, gex, gst, gnj, canc, bst, bnj, bdel, js, jc, npp, jatt, tally, stg, cr, ur, att, ares, inst,
                  ujob, ugrp, ubp, udate, today>>
 
+\* The canceller's loops select rows and hand each to a worker pool: the call happens later, when the state may have moved on
+\* (pcall = calls selected but not yet issued).  <kind>Select is the loop body's query, <kind>Call the procedure call it queued.
+
 \* Canceller.cancel_cancelled_ready_jobs_loop_body (gated on the n_cancelled_ready_jobs counter)
-CancelReady(j) ==
+CancelReadySelect(j) ==
   /\ ur.cr > 0
   /\ js[j] = "Ready" /\ gst[JGrp[j]] = "running" /\ ~JAlways[j] /\ (GrpCanc(JGrp[j]) \/ jc[j])
+  /\ <<"ready", j, NULL>> \notin pcall
+  /\ pcall' = pcall \cup {<<"ready", j, NULL>>}
+  /\ UNCHANGED <<us, gex, gst, gnj, canc, bst, bnj, bdel, js, jc, npp, jatt, tally, stg, cr, ur, att, ares, inst, disp, jdisp,
+                 ujob, ugrp, ubp, udate, today>>
+CancelReadyCall(j) ==         \* mark_job_complete(j, attempt NULL, instance NULL, 'Cancelled')
+  /\ <<"ready", j, NULL>> \in pcall /\ pcall' = pcall \ {<<"ready", j, NULL>>}
   /\ MJC(j, NULL, NULL, "Cancelled", NULLT, NULLT, "cancelled")
 
 \* cancel_cancelled_creating_jobs_loop_body: Creating jobs (cancelled = 0) of cancelled 'running' groups, joined with ANY attempt
-CancelCreating(j, a, t) ==
-  /\ ur.cc > 0 /\ t \in Times
+CancelCreatingSelect(j, a) ==
+  /\ ur.cc > 0
   /\ js[j] = "Creating" /\ gst[JGrp[j]] = "running" /\ GrpCanc(JGrp[j]) /\ ~JAlways[j] /\ ~jc[j]
-  /\ att[j][a].ex
+  /\ att[j][a].ex /\ <<"creating", j, a>> \notin pcall
+  /\ pcall' = pcall \cup {<<"creating", j, a>>}
+  /\ UNCHANGED <<us, gex, gst, gnj, canc, bst, bnj, bdel, js, jc, npp, jatt, tally, stg, cr, ur, att, ares, inst, disp, jdisp,
+                 ujob, ugrp, ubp, udate, today>>
+CancelCreatingCall(j, a, t) ==
+  /\ t \in Times /\ <<"creating", j, a>> \in pcall /\ pcall' = pcall \ {<<"creating", j, a>>}
   /\ ("pendrel" \in Avoid => inst[att[j][a].inst].st # "pending")        \* scenario guard (finding "pendrel")
   /\ MJC(j, a, att[j][a].inst, "Cancelled", NULLT, t, "cancelled")
 
-\* cancel_cancelled_running_jobs_loop_body -> unschedule_job
-CancelRunning(j, a, t) ==
-  /\ ur.cx > 0 /\ t \in Times
+\* cancel_cancelled_running_jobs_loop_body and cancel_orphaned_attempts_loop_body -> unschedule_job
+CancelRunningSelect(j, a) ==
+  /\ ur.cx > 0
   /\ js[j] = "Running" /\ gst[JGrp[j]] = "running" /\ GrpCanc(JGrp[j]) /\ ~JAlways[j] /\ ~jc[j]
-  /\ att[j][a].ex
-  /\ Unschedule(j, a, att[j][a].inst, t)
-
-\* cancel_orphaned_attempts_loop_body -> unschedule_job
-Orphan(j, a, t) ==
-  /\ t \in Times
+  /\ att[j][a].ex /\ <<"unsched", j, a>> \notin pcall
+  /\ pcall' = pcall \cup {<<"unsched", j, a>>}
+  /\ UNCHANGED <<us, gex, gst, gnj, canc, bst, bnj, bdel, js, jc, npp, jatt, tally, stg, cr, ur, att, ares, inst, disp, jdisp,
+                 ujob, ugrp, ubp, udate, today>>
+OrphanSelect(j, a) ==
   /\ att[j][a].ex /\ att[j][a].st # NULLT /\ att[j][a].en = NULLT
   /\ (js[j] \notin {"Running", "Creating"} \/ (jatt[j] # NULL /\ jatt[j] # a))
-  /\ inst[att[j][a].inst].st = "active"
+  /\ inst[att[j][a].inst].st = "active" /\ <<"unsched", j, a>> \notin pcall
+  /\ pcall' = pcall \cup {<<"unsched", j, a>>}
+  /\ UNCHANGED <<us, gex, gst, gnj, canc, bst, bnj, bdel, js, jc, npp, jatt, tally, stg, cr, ur, att, ares, inst, disp, jdisp,
+                 ujob, ugrp, ubp, udate, today>>
+UnscheduleCall(j, a, t) ==
+  /\ t \in Times /\ <<"unsched", j, a>> \in pcall /\ pcall' = pcall \ {<<"unsched", j, a>>}
   /\ Unschedule(j, a, att[j][a].inst, t)
 
 \* ---- instances -------------------------------------------------------------------------------------------------------------------
 Activate(i) ==                \* activate_instance
   /\ inst[i].st = "pending"
   /\ inst' = [inst EXCEPT ![i].st = "active"]
-  /\ UNCHANGED <<us, gex, gst, gnj, canc, bst, bnj, bdel, js, jc, npp, jatt, tally, stg, cr, ur, att, ares, disp, jdisp,
+  /\ UNCHANGED <<us, gex, gst, gnj, canc, bst, bnj, bdel, js, jc, npp, jatt, tally, stg, cr, ur, att, ares, disp, jdisp, pcall,
                  ujob, ugrp, ubp, udate, today>>
 
 Deactivate(i, t) ==           \* deactivate_instance (067): ends all its attempts, puts their current jobs back to Ready
@@ -416,26 +434,26 @@ Deactivate(i, t) ==           \* deactivate_instance (067): ends all its attempt
         /\ jatt' = [j \in Jobs |-> IF j \in S THEN NULL ELSE jatt[j]]
         /\ ur' = res[1] /\ cr' = res[2]
         /\ inst' = [inst EXCEPT ![i] = [st |-> "inactive", free |-> InstCores]]
-  /\ UNCHANGED <<us, gex, gst, gnj, canc, bst, bnj, bdel, jc, npp, tally, stg, ares, disp, jdisp, today>>
+  /\ UNCHANGED <<us, gex, gst, gnj, canc, bst, bnj, bdel, jc, npp, tally, stg, ares, disp, jdisp, pcall, today>>
 
 \* ---- billing -----------------------------------------------------------------------------------------------------------------------
 Heartbeat(j, a, t) ==         \* driver.main.billing_update_1: UPDATE attempts SET rollup_time = t
   /\ "billing" \in Features /\ t \in Times
   /\ att[j][a].ex /\ \E i \in Insts : <<j, a, i>> \in disp /\ inst[i].st \in {"active", "inactive"}
   /\ UpdateAttempts({<<j, a>>}, [p \in {<<j, a>>} |-> [att[j][a] EXCEPT !.ru = t]])
-  /\ UNCHANGED <<us, gex, gst, gnj, canc, bst, bnj, bdel, js, jc, npp, jatt, tally, stg, cr, ur, ares, inst, disp, jdisp, today>>
+  /\ UNCHANGED <<us, gex, gst, gnj, canc, bst, bnj, bdel, js, jc, npp, jatt, tally, stg, cr, ur, ares, inst, disp, jdisp, pcall, today>>
 
 AddResources(j, a) ==         \* driver.job.add_attempt_resources + trigger attempt_resources_after_insert
   /\ "billing" \in Features
   /\ att[j][a].ex /\ ~ares[j][a]            \* re-registration is ON DUPLICATE KEY UPDATE quantity = quantity: no trigger
   /\ ares' = [ares EXCEPT ![j][a] = TRUE]
   /\ BillingAfter([k \in Jobs |-> IF k = j THEN Billed(att[j][a]) * ResQ ELSE 0])
-  /\ UNCHANGED <<us, gex, gst, gnj, canc, bst, bnj, bdel, js, jc, npp, jatt, tally, stg, cr, ur, att, inst, disp, jdisp, today>>
+  /\ UNCHANGED <<us, gex, gst, gnj, canc, bst, bnj, bdel, js, jc, npp, jatt, tally, stg, cr, ur, att, inst, disp, jdisp, pcall, today>>
 
 NextDay ==
   /\ "billing" \in Features /\ today + 1 \in Days
   /\ today' = today + 1
-  /\ UNCHANGED <<us, gex, gst, gnj, canc, bst, bnj, bdel, js, jc, npp, jatt, tally, stg, cr, ur, att, ares, inst, disp, jdisp,
+  /\ UNCHANGED <<us, gex, gst, gnj, canc, bst, bnj, bdel, js, jc, npp, jatt, tally, stg, cr, ur, att, ares, inst, disp, jdisp, pcall,
                  ujob, ugrp, ubp, udate>>
 
 \* ---- background cleaners ------------------------------------------------------------------------------------------------------------
@@ -443,14 +461,14 @@ CleanStaging ==               \* delete_committed_job_groups_inst_coll_staging_r
   /\ "cleaners" \in Features
   /\ \E u \in Updates, g \in Groups : us[u] = "committed" /\ stg[u][g] # ZeroStg
   /\ stg' = [u \in Updates |-> [g \in Groups |-> IF us[u] = "committed" THEN ZeroStg ELSE stg[u][g]]]
-  /\ UNCHANGED <<us, gex, gst, gnj, canc, bst, bnj, bdel, js, jc, npp, jatt, tally, cr, ur, att, ares, inst, disp, jdisp,
+  /\ UNCHANGED <<us, gex, gst, gnj, canc, bst, bnj, bdel, js, jc, npp, jatt, tally, cr, ur, att, ares, inst, disp, jdisp, pcall,
                  ujob, ugrp, ubp, udate, today>>
 
 CleanCancellable ==           \* delete_prev_cancelled_job_group_cancellable_resources_records
   /\ "cleaners" \in Features
   /\ \E u \in Updates, g \in Groups : GrpCanc(g) /\ cr[u][g] # ZeroCr
   /\ cr' = [u \in Updates |-> [g \in Groups |-> IF GrpCanc(g) THEN ZeroCr ELSE cr[u][g]]]
-  /\ UNCHANGED <<us, gex, gst, gnj, canc, bst, bnj, bdel, js, jc, npp, jatt, tally, stg, ur, att, ares, inst, disp, jdisp,
+  /\ UNCHANGED <<us, gex, gst, gnj, canc, bst, bnj, bdel, js, jc, npp, jatt, tally, stg, ur, att, ares, inst, disp, jdisp, pcall,
                  ujob, ugrp, ubp, udate, today>>
 
 -----------------------------------------------------------------------------
@@ -458,12 +476,12 @@ Next ==
   \/ \E u \in Updates : CreateUpdate(u) \/ Commit(u)
   \/ \E g \in Groups : InsertGroup(g) \/ CancelGroup(g)
   \/ MarkDeleted
-  \/ \E j \in Jobs : InsertJob(j) \/ CancelReady(j)
+  \/ \E j \in Jobs : InsertJob(j) \/ CancelReadySelect(j) \/ CancelReadyCall(j)
   \/ \E j \in Jobs, a \in AttIds, i \in Insts : SchedSelect(j, a, i) \/ JpimSelect(j, a, i) \/ ScheduleProc(j, a, i)
   \/ \E j \in Jobs, a \in AttIds, i \in Insts, t \in Times : Started(j, a, i, t) \/ CreatingProc(j, a, i, t)
-  \/ \E j \in Jobs, a \in AttIds, i \in Insts, st \in {"Success", "Failed"}, t0 \in Times, t1 \in Times : Complete(j, a, i, st, t0, t1)
-  \/ \E j \in Jobs, a \in AttIds, t \in Times : CancelCreating(j, a, t) \/ CancelRunning(j, a, t) \/ Orphan(j, a, t) \/ Heartbeat(j, a, t)
-  \/ \E j \in Jobs, a \in AttIds : AddResources(j, a)
+  \/ \E j \in Jobs, a \in AttIds, i \in Insts, st \in {"Success", "Failed", "Error"}, t0 \in Times, t1 \in Times : Complete(j, a, i, st, t0, t1)
+  \/ \E j \in Jobs, a \in AttIds, t \in Times : CancelCreatingCall(j, a, t) \/ UnscheduleCall(j, a, t) \/ Heartbeat(j, a, t)
+  \/ \E j \in Jobs, a \in AttIds : AddResources(j, a) \/ CancelCreatingSelect(j, a) \/ CancelRunningSelect(j, a) \/ OrphanSelect(j, a)
   \/ \E i \in Insts : Activate(i)
   \/ \E i \in Insts, t \in Times : Deactivate(i, t)
   \/ NextDay \/ CleanStaging \/ CleanCancellable
